@@ -1269,6 +1269,10 @@ class Norm:
                     return lin_add(a, b)
             xs: List[Term] = []
             for x in (a, b):
+                # inside a concatenation a copy contributes the elements of what it copies (`[*a, b]` is read as list(a) + [b])
+                if x[0] == "call" and x[1] in (("g", "builtin:list"), ("g", "builtin:tuple")) and len(x[2]) == 1 and not x[3] \
+                        and (b if x is a else a)[0] in ("list", "tuple", "cat", "comp", "new"):
+                    x = x[2][0]
                 if x[0] == "cat":
                     xs.extend(x[1])
                 else:
